@@ -114,7 +114,7 @@ def post(ctx, cases, gores, model):
 
 
 SPEC = dict(
-    lean_modules=["Ecal.Props.C01"],
+    lean_modules=["Ecal.Props.C01", "Ecal.Props.C01Sink"],
     shards=16,
     rule=("case = rule set + cascade scope + history of events + worker count 1..4, run through a real Processor "
           "(AddEventAndWait, or AddEvent for all and Finish) and a RuleIndex; a schedule may put Finish/AddRule/Start or Reset "
@@ -178,9 +178,12 @@ META = dict(
                 "event is never skipped after any history (cache_sound_ops, fired_event_not_skipped_ops); the scope trie answers with the flag "
                 "of the longest defined prefix (processEvent_exact_scope). Spec.fires ranges over the rules AddRule accepted "
                 "(indexed_characterised: a rule with kind and scope match whose name no earlier accepted rule has; a refused rule does not block its name since b2c3167). Hypotheses: Rule.WF (kind "
-                "patterns non-empty as produced by strings.Split, state keys distinct as in a Go map). NOT modelled in Lean, only tested: "
-                "sink attributes -> Rule (rt_sink.go createRule) and addEvent's scope map (func_provider.go); constants 63, '*', '.' are typed "
-                "into the model, not extracted."),
+                "patterns non-empty as produced by strings.Split, state keys distinct as in a Go map). Sink level (lean/Ecal/Model/Sink.lean, Props/C01Sink.lean): createRule's attribute "
+                "translation and addEvent's arguments / scope map are modelled, and sinks_fire_exact proves that exactly the accepted sinks whose "
+                "DECLARED kindmatch / statematch / scopematch match and which are not suppressed fire — under the explicit hypotheses string "
+                "statematch keys (DeclOK) and ValuesFaithful, which exclude the known findings statematch-nonstring-key, empty-list-not-equal, "
+                "statematch-values-aliased (each with a negative example); that translation model is NOT run by the driver, its tie to rt_sink.go / "
+                "func_provider.go is the ECAL-level correspondence. Constants 63, '*', '.' are typed into the model, not extracted."),
     level_note=("Trusted: Lean kernel + propext/Classical.choice/Quot.sound; the correspondence harness; Go's regexp (truth table); "
                 "value equality classes computed by the harness. Readings: a self-suppressing rule never runs (spec follows the code, "
                 "property text says 'another'); known findings statematch-nonstring-key, scope-lost-in-nested-instance-state, empty-list-not-equal, statematch-values-aliased (see known_findings.txt)."),
